@@ -33,7 +33,7 @@ def gen_case(case_seed, cfg):
     r = seeds.rng(case_seed, "c08")
     stratum = "param_rule" if r.random() < 0.12 else "plain"
     n_ops = r.choice([3, 5, 8, 12, 20, 30, 40])
-    base, ops = history.gen_history(r, n_ops, ALPHABET, param_rule_stratum=(stratum == "param_rule"))
+    base, ops = history.gen_history(r, n_ops, ALPHABET, param_rule_stratum=(stratum == "param_rule"), allow_ode=True)
     return {"base": base, "ops": ops, "stratum": stratum, "pseed": seeds.derive(case_seed, "p")}
 
 
